@@ -31,7 +31,7 @@ META = {
 GROUP = "ops"
 REQ = ("From RV Require Import Prelude.\nFrom Coq Require Import String.\nFrom Ops Require Import InPlace InPlace_cases.\n"
        "Open Scope string_scope.\nOpen Scope N_scope.")
-THEOREMS = ["C13_in_place_shape_ok", "C13_in_place_decision_exact", "C13_fast_broadcast_sound", "C13_binary_in_place_eq",
+THEOREMS = ["C13_in_place_shape_ok", "C13_in_place_decision_exact", "C13_fast_broadcast_sound", "C13_broadcast_flat_index", "C13_binary_in_place_eq",
             "C13_commuted_eq", "C13_binary_never_panics", "C13_model_in_place_eq_normal", "C13_oracle_reflects", "C13_nonvacuous",
             "C13_attention_rounding_witness"]
 
@@ -105,7 +105,7 @@ def main(ctx):
     ctx.extra["registered_operators"] = len(keys)
     ctx.extra["in_place_or_commutative_operators"] = inplace
     ctx.extra["operators_not_constructed"] = unbuilt
-    n = int(os.environ.get("VERIF_OPS_N", "0")) or ctx.n(600, 30000)
+    n = int(os.environ.get("VERIF_OPS_N", "0")) or ctx.n(600, 8000)
     cases = ctx.gen_exec(bindir, "c13", n, extra_gen=[",".join(keys)], inputs=ctx.replay_inputs())
     # coverage: every enumerated in-place/commutative operator must have had a successful normal run
     covered = set()
